@@ -21,7 +21,7 @@ from .. import common
 from ..common import canon
 from .. import impl_c18 as impl
 
-LEAN_MODULES = ['Props.C18']
+LEAN_MODULES = ['Props.C18', 'Props.Translated_C18']
 TRUSTED = ['harness/props/c18.py, harness/impl_c18.py (generators, pipeline renderer, SIGINT hand-off, monitors, '
            'fault-injection shim and reference child)',
            'harness/extract_c18.py (ast -> Generated/CliMain.lean)',
@@ -1043,6 +1043,13 @@ def extract(env):
     (ast only); Props/C18.lean `main_shape_agrees` proves it equals what the model assumes."""
     from .. import extract_c18
     extract_c18.generate(common.REPO, common.LEAN / 'Generated' / 'CliMain.lean')
+    # second static tie: the six built-in context parsers translated to Lean (harness/translate.py ->
+    # lean/Generated/TranslatedParser*.lean); Props/Translated_C18.lean proves them equal to Cli.parse
+    from .. import translate
+    translate.generate(['C18'])
+    if not env.quick and not env.escalated:
+        from .. import translate_selftest
+        translate_selftest.check(['C18'], env.seed)
 
 
 def order_findings(res):
